@@ -359,6 +359,7 @@ let walk seed count maxlen =
 
 let () =
   match Array.to_list Sys.argv with
+  | [ _; "h2check" ] -> H2check.run_h2check ()
   | [ _; "walk"; seed; count; maxlen ] -> walk (int_of_string seed) (int_of_string count) (int_of_string maxlen)
   | [ _; "run" ] -> run_stdin ()
   | [ _; "gen"; seed; count; maxlen; hf; ef ] ->
